@@ -812,12 +812,19 @@ def explore_repeated(chk, repo, stride=1):
     case, equal to the results of a study in which nothing ever raised."""
     mod = repo.by_path('TidalPy/utilities/multiprocessing/multiprocessing.py')
     where = mod.where(mod.defs['multiprocessing_run'])
-    inputs = [('x', 'X', 0, 1, 'linear', [], 2), ('y', 'Y', 0, 2, 'linear', (), 3)]
-    clean = Scenario('2 x 3 grid, nothing raises', inputs)
-    ref_out, ref_fs, ref_m = reference(repo, clean)
-    ref_rec = _records(ref_out)
-    for fails in (((Fraction(0), Fraction(1)),), ((Fraction(0), Fraction(0)), (Fraction(1), Fraction(2)))):
-        sc = Scenario(f'2 x 3 grid, {len(fails)} case(s) raising in the first call only', inputs, fail=fails, refail=())
+    inputs23 = [('x', 'X', 0, 1, 'linear', [], 2), ('y', 'Y', 0, 2, 'linear', (), 3)]
+    # twelve cases: case numbers of one and of two digits (a completed case 10 or 11 must not stand in for an incomplete case 1)
+    inputs12 = [('x', 'X', 0, 11, 'linear', [], 12)]
+    refs = {}
+    for gname, inputs, fails, coarse in (('2 x 3 grid', inputs23, ((Fraction(0), Fraction(1)),), 1), ('2 x 3 grid', inputs23, ((Fraction(0), Fraction(0)), (Fraction(1), Fraction(2))), 1),
+                                         ('12 values of one input', inputs12, ((Fraction(1),),), 12)):
+        if gname not in refs:
+            clean = Scenario(f'{gname}, nothing raises', inputs)
+            ref_out, ref_fs, ref_m = reference(repo, clean)
+            refs[gname] = (_records(ref_out), ref_m)
+        ref_rec, ref_m = refs[gname]
+        stride_ = stride * coarse
+        sc = Scenario(f'{gname}, {len(fails)} case(s) raising in the first call only', inputs, fail=fails, refail=())
         fs = FS()
         m1 = Machine(repo, fs, fail_cases=sc.fail, pathos=True)
         bad = []; n = 0
@@ -832,7 +839,7 @@ def explore_repeated(chk, repo, stride=1):
         case_args = {}
         for a_ in ref_m.executed: pass
         # third call from the final state and from the states a kill of the second call leaves
-        points = [len(fs.trace) - 1] + list(range(n1, len(fs.trace) - 1, max(1, stride)))
+        points = [len(fs.trace) - 1] + list(range(n1, len(fs.trace) - 1, max(1, stride_)))
         for k in points:
             lab, tag, snap = fs.trace[k]
             fs3 = FS(); fs3.restore(snap); fs3.record = False
@@ -861,7 +868,7 @@ def explore_repeated(chk, repo, stride=1):
             if len(bad) >= 3: break
         chk.ob('R18.8', f'[{sc.name}] after a restart in which they succeed, any further call ({n} starting states: the completed study and every kill point of the restart) executes no completed case again and returns one result per case, equal to a study in which nothing raised',
                not bad, ' | '.join(bad[:3]), where, key=f'R18.8|{sc.name}', method='model interpretation: three calls on one directory')
-    chk.note_analysed('repeated restarts', 'two fail sets x (completed study + kill points of the restart)')
+    chk.note_analysed('repeated restarts', 'three fail sets (two on a 2 x 3 grid, one on a 12-case study) x (completed study + kill points of the restart)')
 
 
 def explore_double(chk, repo, stride=1):
